@@ -156,9 +156,10 @@ fn d_step<S: Src>(s: &mut S, tag: u8, tail: Tail, sh: Shape) {
     let sender_active = s_after.0 == d.src && s_after.2 != State::Down;
     let s_changed = s_before != Some(s_after);
     vcover!(sender_active && s_before.is_none(), "unknown sender becomes a member");
-    vcover!(!sender_active && s_after.0 == d.src, "sender held Down");
-    vcover!(!sender_active && s_after.0 != d.src, "sender identity superseded");
-    vcover!(sender_active && s_before.map(|r| r.2 == State::Suspect && r.1 < d.src_inc).unwrap_or(false), "header refutes a suspicion");
+    let k0 = sh.k == 0; // no record: the sender can only be unknown
+    vcover!(k0 || (!sender_active && s_after.0 == d.src), "sender held Down");
+    vcover!(k0 || (!sender_active && s_after.0 != d.src), "sender identity superseded");
+    vcover!(k0 || (sender_active && s_before.map(|r| r.2 == State::Suspect && r.1 < d.src_inc).unwrap_or(false)), "header refutes a suspicion");
 
     // what the update (if any, and if trusted) does
     let upd = if sender_active { d.update } else { None };
@@ -239,7 +240,6 @@ fn d_step<S: Src>(s: &mut S, tag: u8, tail: Tail, sh: Shape) {
 
     // ---- inactive sender: payload discarded, at most a TurnUndead back ------------
     if !sender_active {
-        vcover!(tag != 10 || d.tag == 10, "TurnUndead from a member we hold down");
         vassert!(post.handler_n == pre.handler_n, "c09: custom items from a Down or superseded sender are discarded");
         if let Some(u) = d.update {
             if u.0.addr != d.src.addr {
@@ -475,6 +475,14 @@ dh!(d_turn_undead, 10, Tail::None, sh(1));
 dh!(d_turn_undead_never, 10, Tail::None, {
     let mut x = sh(1);
     x.renew = Some(RenewMode::Never);
+    x
+});
+// renew() yields an identity that loses the conflict: must be treated as not renewable
+dh!(d_turn_undead_losing, 10, Tail::None, {
+    let mut x = sh(0);
+    x.probe = false;
+    x.renew = Some(RenewMode::Losing);
+    x.fanout = Some(1);
     x
 });
 dh!(d_turn_undead_next, 10, Tail::None, {
